@@ -2722,13 +2722,18 @@ func (c *compiler) VisitForRangeStmt(s *ast.ForRangeStmt) ast.VisitResult {
 }
 
 func (c *compiler) VisitBreakContinueStmt(s *ast.BreakContinueStmt) ast.VisitResult {
-	c.exitNestedScopes(c.curLoopScope)
-	c.commentNode(c.cbb, s, "")
 	if s.Tok.Type == token.VERLASSE {
+		c.exitNestedScopes(c.curLoopScope)
+		c.commentNode(c.cbb, s, "")
 		c.cbb.NewBr(c.curLeaveBlock)
 		c.cbb = c.cf.NewBlock("")
 		return ast.VisitRecurse
 	}
+	// the scope of the loop itself lives on across iterations (it holds what the loop header created),
+	// so only the scopes inside of it are left
+	for scp := c.scp; scp != c.curLoopScope; scp = c.exitScope(scp) {
+	}
+	c.commentNode(c.cbb, s, "")
 	c.cbb.NewBr(c.curContinueBlock)
 	c.cbb = c.cf.NewBlock("")
 	return ast.VisitRecurse
